@@ -511,9 +511,10 @@ fn fref_conv(x: &[f64], w: &[f64], s: &[f64], sh: &[usize; 7]) -> Vec<f64> {
 }
 
 /// options of one CKKS end-to-end run: `dir` 0 = inputs encrypted (symmetric, seed expanded, serialised), 1 = weights encrypted (public key);
-/// `tr` transport of the result; `rescale` before the bias; `pidnone`: the bias is encoded with `parms_id = None` (as the crate's own test does)
+/// `tr` transport of the result; `rescale` before the bias; `pidnone`: the bias is encoded with `parms_id = None` (as the crate's own test does);
+/// `lvl`: 0 = operands encoded with `parms_id = None` (first level), 1 = with `Some(second data level)` (everything then runs one level lower)
 #[derive(Clone, Copy)]
-pub struct COpt { pub dir: u64, pub tr: bool, pub rescale: bool, pub pidnone: bool }
+pub struct COpt { pub dir: u64, pub tr: bool, pub rescale: bool, pub pidnone: bool, pub lvl: usize }
 
 /// the worst-case bound derived at the top of this section; `ps` = Some(pack slots) when LWE packing ran
 #[allow(clippy::too_many_arguments)]
@@ -521,7 +522,7 @@ fn ckks_bound(e: &CEnv, o: &COpt, a_x: f64, a_w: f64, a_s: f64, bias: bool, t_pr
     let nf = e.s.n as f64; let d = 2f64.powi(e.sb);
     let (a_e, a_p, b) = if o.dir == 0 { (a_x, a_w, 21.0) } else { (a_w, a_x, 21.0 * (2.0 * nf + 1.0)) };
     let mut err = t_prod as f64 * nf * ((0.5 + b) * (d * a_p + 0.5) + d * a_e / 2.0);
-    let data = &e.qs[..e.qs.len() - 1];
+    let data = &e.qs[..e.qs.len() - 1 - o.lvl];
     if let Some(ps) = ps {
         let qmax = *data.iter().max().unwrap() as f64; let p = *e.qs.last().unwrap() as f64;
         let bks = 21.0 * nf * data.len() as f64 * (qmax / p).ceil() + nf + 2.0;
@@ -535,12 +536,22 @@ fn ckks_bound(e: &CEnv, o: &COpt, a_x: f64, a_w: f64, a_s: f64, bias: bool, t_pr
 }
 /// do the scaled values fit the modulus the result is decrypted at?
 fn ckks_fits(e: &CEnv, o: &COpt, mag: f64) -> bool {
-    let data = &e.qs[..e.qs.len() - 1];
+    if o.lvl + 2 > e.qs.len() - 1 { return false; }
+    let data = &e.qs[..e.qs.len() - 1 - o.lvl];
     let lq: f64 = data.iter().map(|&q| (q as f64).log2()).sum();
     let top = mag.max(1.0).log2() + 2.0 * e.sb as f64 + 2.0;
-    data.len() >= 2 && top < lq && e.sb as f64 + 1.0 < (data[0] as f64).log2()
+    // after a rescale: scale D^2 / q_last, modulus Q / q_last — the same margin
+    data.len() >= 2 && top < lq
 }
 
+/// every plaintext of an encoded set is at the requested level and scale
+fn plain_levels(e: &CEnv, p: &Plain2d, pid: Option<ParmsID>, scale: f64) {
+    let want = pid.unwrap_or(*e.s.ctx.first_parms_id());
+    for row in &p.data { for pt in &row.data {
+        assert!(*pt.parms_id() == want, "encoded plaintext is not at the requested level");
+        assert!(pt.scale().to_bits() == scale.to_bits(), "encoded plaintext does not carry the requested scale");
+    } }
+}
 fn ctransport(e: &CEnv, y: Cipher2d, terms: &[usize]) -> Cipher2d {
     let mut bytes = vec![];
     y.serialize_terms(&e.s.ctx, terms, &mut bytes).unwrap();
@@ -557,10 +568,11 @@ fn croundtrip(e: &CEnv, y: Cipher2d) -> Cipher2d {
 fn ctail<F: Fn(Option<ParmsID>, f64) -> Plain2d>(e: &CEnv, o: &COpt, y: &mut Cipher2d, bias: bool, enc_out: F) {
     let d = 2f64.powi(e.sb);
     let mut sc = d * d;
-    if o.rescale { let ql = e.qs[e.qs.len() - 2]; sc = d * d / ql as f64; y.rescale_to_next_inplace(&e.s.evaluator); }
+    if o.rescale { let ql = e.qs[e.qs.len() - 2 - o.lvl]; sc = d * d / ql as f64; y.rescale_to_next_inplace(&e.s.evaluator); }
     if bias {
         let pid = if o.pidnone { None } else { Some(*y.data[0].data[0].parms_id()) };
         let se = enc_out(pid, sc);
+        plain_levels(e, &se, pid, sc);
         y.add_plain_inplace(&e.s.evaluator, &se);
     }
 }
@@ -569,8 +581,10 @@ fn ctail<F: Fn(Option<ParmsID>, f64) -> Plain2d>(e: &CEnv, o: &COpt, y: &mut Cip
 pub fn cheetah_ckks_e2e(e: &CEnv, m: usize, r: usize, n: usize, obj: u64, pack: bool, o: &COpt, x: &[f64], w: &[f64], s: &[f64]) -> Vec<f64> {
     let d = 2f64.powi(e.sb);
     let h = MatmulHelper::new(m, r, n, e.s.n, obj_of(obj), pack);
-    let xe = h.encode_inputs_ckks(&e.enc, x, None, d);
-    let we = h.encode_weights_ckks(&e.enc, w, None, d);
+    let pid = if o.lvl == 0 { None } else { Some(e.s.levels()[o.lvl]) };
+    let xe = h.encode_inputs_ckks(&e.enc, x, pid, d);
+    let we = h.encode_weights_ckks(&e.enc, w, pid, d);
+    plain_levels(e, &xe, pid, d); plain_levels(e, &we, pid, d);
     let mut y = if o.dir == 0 {
         let xc = croundtrip(e, xe.encrypt_symmetric(&e.s.encryptor).expand_seed(&e.s.ctx));
         h.matmul(&e.s.evaluator, &xc, &we)
@@ -588,8 +602,10 @@ pub fn conv_ckks_e2e(e: &CEnv, sh: &[usize; 7], obj: u64, o: &COpt, x: &[f64], w
     let d = 2f64.powi(e.sb);
     let [b, ci, co, hh, ww, kh, kw] = *sh;
     let h = Conv2dHelper::new(b, ci, co, hh, ww, kh, kw, e.s.n, obj_of(obj));
-    let xe = h.encode_inputs_ckks(&e.enc, x, None, d);
-    let we = h.encode_weights_ckks(&e.enc, w, None, d);
+    let pid = if o.lvl == 0 { None } else { Some(e.s.levels()[o.lvl]) };
+    let xe = h.encode_inputs_ckks(&e.enc, x, pid, d);
+    let we = h.encode_weights_ckks(&e.enc, w, pid, d);
+    plain_levels(e, &xe, pid, d); plain_levels(e, &we, pid, d);
     let mut y = if o.dir == 0 {
         let xc = croundtrip(e, xe.encrypt_symmetric(&e.s.encryptor).expand_seed(&e.s.ctx));
         h.conv2d(&e.s.evaluator, &xc, &we)
@@ -619,7 +635,7 @@ fn fguard<F: FnOnce() -> Vec<f64>>(f: F) -> Result<Vec<f64>, String> {
     std::panic::catch_unwind(std::panic::AssertUnwindSafe(f)).map_err(|_| LAST_PANIC.with(|p| p.borrow().clone()))
 }
 fn chead(e: &CEnv) -> String { format!("{} {} {}", e.s.n, fl(&e.qs), e.sb) }
-fn copt_str(o: &COpt) -> String { format!("{} {} {} {}", o.dir, o.tr as u8, o.rescale as u8, o.pidnone as u8) }
+fn copt_str(o: &COpt) -> String { format!("{} {} {} {} {}", o.dir, o.tr as u8, o.rescale as u8, o.pidnone as u8, o.lvl) }
 
 #[allow(clippy::too_many_arguments)]
 fn mmc_case(out: &mut Out, e: &CEnv, m: usize, rr: usize, n: usize, obj: u64, pack: bool, o: &COpt, x: &[f64], w: &[f64], s: &[f64], cls: &str) {
@@ -716,16 +732,18 @@ fn ckks_part(out: &mut Out, r: &mut Rng, thorough: bool) {
                 for dir in 0..2u64 {
                     if kind != 0 && ((dir == 1) != (obj == 1)) && r.chance(1, 2) { continue; }
                     let rescale = r.chance(1, 2);
-                    let o = COpt { dir, tr: r.chance(1, 2), rescale, pidnone: rescale && r.chance(1, 3) };
-                    mmc_case(out, &e, m, rr, nn, obj, pack, &o, &x, &w, &s, &format!("ckks-{}-n{}{}{}", fkind_name(kind), n, if pack { "p" } else { "" }, if rescale { "r" } else { "" }));
+                    let lvl = (bits.len() >= 4 && r.chance(1, 3)) as usize;
+                    let o = COpt { dir, tr: r.chance(1, 2), rescale, pidnone: rescale && lvl == 0 && r.chance(1, 3), lvl };
+                    mmc_case(out, &e, m, rr, nn, obj, pack, &o, &x, &w, &s, &format!("ckks-{}-n{}{}{}{}", fkind_name(kind), n, if pack { "p" } else { "" }, if rescale { "r" } else { "" }, if lvl == 1 { "-l1" } else { "" }));
                 }
             }
             // output re-encoding is the inverse of output decoding: fresh public-key encryption of the encoded outputs, bound (1/2 + 21 (2N + 1)) / D
             if idx % 2 == 0 {
                 let yv = fdata(r, m * nn, [0u64, 6, 1, 3][(idx / 2 % 4) as usize]);
                 let d = 2f64.powi(sb); let tr = r.chance(1, 2);
-                let lhs = format!("mmc_outputs_roundtrip {} {} {} {} {} {} {} {}", chead(&e), m, rr, nn, obj, pack as u8, tr as u8, ffl(&yv));
-                let got = fguard(|| { let h = MatmulHelper::new(m, rr, nn, n, obj_of(obj), pack); let pe = h.encode_outputs_ckks(&e.enc, &yv, None, d); let mut ct = pe.encrypt(&e.s.encryptor);
+                let lv = r.below(e.s.levels().len() as u64) as usize; let pid = if lv == 0 && r.chance(1, 2) { None } else { Some(e.s.levels()[lv]) };
+                let lhs = format!("mmc_outputs_roundtrip {} {} {} {} {} {} {} {}{} {}", chead(&e), m, rr, nn, obj, pack as u8, tr as u8, lv, if pid.is_none() { "n" } else { "" }, ffl(&yv));
+                let got = fguard(|| { let h = MatmulHelper::new(m, rr, nn, n, obj_of(obj), pack); let pe = h.encode_outputs_ckks(&e.enc, &yv, pid, d); plain_levels(&e, &pe, pid, d); let mut ct = pe.encrypt(&e.s.encryptor);
                     if tr { ct = if pack { croundtrip(&e, ct) } else { ctransport(&e, ct, &h.output_terms()) }; }
                     h.decrypt_outputs_ckks(&e.enc, &e.s.decryptor, &ct) });
                 fverdict(out, &lhs, &format!("ckks-ortrip-n{}{}", n, if pack { "p" } else { "" }), got, &yv, (0.5 + 21.0 * (2.0 * n as f64 + 1.0)) / d + 40.0 * 2f64.powi(-52) * 9.0);
@@ -749,14 +767,16 @@ fn ckks_part(out: &mut Out, r: &mut Rng, thorough: bool) {
                 let s = if r.chance(1, 2) { vec![] } else { fdata(r, b * co * oh * ow, if kind == 6 { 6 } else { 0 }) };
                 let dir = if kind == 0 { (obj == 1) as u64 } else { r.below(2) };
                 let rescale = r.chance(1, 2);
-                let o = COpt { dir, tr: r.chance(1, 2), rescale, pidnone: rescale && r.chance(1, 3) };
-                cvc_case(out, &e, sh, obj, &o, &x, &w, &s, &format!("ckks-conv-{}-n{}{}", fkind_name(kind), n, if rescale { "r" } else { "" }));
+                let lvl = (bits.len() >= 4 && r.chance(1, 3)) as usize;
+                    let o = COpt { dir, tr: r.chance(1, 2), rescale, pidnone: rescale && lvl == 0 && r.chance(1, 3), lvl };
+                cvc_case(out, &e, sh, obj, &o, &x, &w, &s, &format!("ckks-conv-{}-n{}{}{}", fkind_name(kind), n, if rescale { "r" } else { "" }, if lvl == 1 { "-l1" } else { "" }));
             }
             if idx % 3 == 0 {
                 let yv = fdata(r, b * co * oh * ow, [0u64, 6, 1, 3][(idx / 3 % 4) as usize]);
                 let d = 2f64.powi(sb); let tr = r.chance(1, 2);
-                let lhs = format!("cvc_outputs_roundtrip {} {} {} {} {} {} {} {} {} {} {}", chead(&e), b, ci, co, hh, ww, kh, kw, obj, tr as u8, ffl(&yv));
-                let got = fguard(|| { let h = Conv2dHelper::new(b, ci, co, hh, ww, kh, kw, n, obj_of(obj)); let pe = h.encode_outputs_ckks(&e.enc, &yv, None, d); let mut ct = pe.encrypt(&e.s.encryptor);
+                let lv = r.below(e.s.levels().len() as u64) as usize; let pid = if lv == 0 && r.chance(1, 2) { None } else { Some(e.s.levels()[lv]) };
+                let lhs = format!("cvc_outputs_roundtrip {} {} {} {} {} {} {} {} {} {} {}{} {}", chead(&e), b, ci, co, hh, ww, kh, kw, obj, tr as u8, lv, if pid.is_none() { "n" } else { "" }, ffl(&yv));
+                let got = fguard(|| { let h = Conv2dHelper::new(b, ci, co, hh, ww, kh, kw, n, obj_of(obj)); let pe = h.encode_outputs_ckks(&e.enc, &yv, pid, d); plain_levels(&e, &pe, pid, d); let mut ct = pe.encrypt(&e.s.encryptor);
                     if tr { ct = ctransport(&e, ct, &h.output_terms()); }
                     h.decrypt_outputs_ckks(&e.enc, &e.s.decryptor, &ct) });
                 fverdict(out, &lhs, &format!("ckks-conv-ortrip-n{}", n), got, &yv, (0.5 + 21.0 * (2.0 * n as f64 + 1.0)) / d + 40.0 * 2f64.powi(-52) * 9.0);
@@ -796,18 +816,18 @@ fn replay_case(out: &mut Out, r: &mut Rng, case: &str) {
             out.case(&format!("cv_run {} {} {} {} {} {}", head, tk[11], tk[12], fl(&x), fl(&w), fl(&s)), "replay",
                 || fl(&conv_e2e(&e, &sh, tk[10].parse().unwrap(), tk[11].parse().unwrap(), tk[12] == "1", &x, &w, &s)));
         }
-        "mmc_e2e" if tk.len() == 16 => {
+        "mmc_e2e" if tk.len() == 17 => {
             let qs: Vec<u64> = pl(tk[2]);
             let e = match cenv_from(pu(tk[1]), &qs, tk[3].parse().unwrap()) { Some(e) => e, None => { out.raw("!NOTE replay: context not available"); return; } };
-            let o = COpt { dir: tk[9].parse().unwrap(), tr: tk[10] == "1", rescale: tk[11] == "1", pidnone: tk[12] == "1" };
-            mmc_case(out, &e, pu(tk[4]), pu(tk[5]), pu(tk[6]), tk[7].parse().unwrap(), tk[8] == "1", &o, &pfl(tk[13]), &pfl(tk[14]), &pfl(tk[15]), "replay");
+            let o = COpt { dir: tk[9].parse().unwrap(), tr: tk[10] == "1", rescale: tk[11] == "1", pidnone: tk[12] == "1", lvl: pu(tk[13]) };
+            mmc_case(out, &e, pu(tk[4]), pu(tk[5]), pu(tk[6]), tk[7].parse().unwrap(), tk[8] == "1", &o, &pfl(tk[14]), &pfl(tk[15]), &pfl(tk[16]), "replay");
         }
-        "cvc_e2e" if tk.len() == 19 => {
+        "cvc_e2e" if tk.len() == 20 => {
             let qs: Vec<u64> = pl(tk[2]);
             let e = match cenv_from(pu(tk[1]), &qs, tk[3].parse().unwrap()) { Some(e) => e, None => { out.raw("!NOTE replay: context not available"); return; } };
             let sh = [pu(tk[4]), pu(tk[5]), pu(tk[6]), pu(tk[7]), pu(tk[8]), pu(tk[9]), pu(tk[10])];
-            let o = COpt { dir: tk[12].parse().unwrap(), tr: tk[13] == "1", rescale: tk[14] == "1", pidnone: tk[15] == "1" };
-            cvc_case(out, &e, &sh, tk[11].parse().unwrap(), &o, &pfl(tk[16]), &pfl(tk[17]), &pfl(tk[18]), "replay");
+            let o = COpt { dir: tk[12].parse().unwrap(), tr: tk[13] == "1", rescale: tk[14] == "1", pidnone: tk[15] == "1", lvl: pu(tk[16]) };
+            cvc_case(out, &e, &sh, tk[11].parse().unwrap(), &o, &pfl(tk[17]), &pfl(tk[18]), &pfl(tk[19]), "replay");
         }
         _ => out.raw("!NOTE replay: only mm_run / cv_run lines carry their operands; verdict lines are regenerated from the seed by re-running the check"),
     }
